@@ -29,8 +29,8 @@ MANIFEST = dict(
           "TLC proves on every file of <= 3/4 items per format that the reader equals the declarative reading (file order, cyclic, each entry "
           "with the last [Header] line of every name before it, nothing from the previous pass), that no entry is dropped/duplicated per pass, "
           "and — on a symbol-level model of the line/size-prefix grammar — that blank lines, surrounding blanks/tabs, CRLF, the blank line after "
-          "a body and a missing final newline never change what is read. The same enumeration (every file x every layout, ~21k cases quick, "
-          "~180k thorough) is rendered to bytes, decoded by the real provider (plugin constructor, mem fs, Run/Acquire/Release) and each request "
+          "a body and a missing final newline never change what is read. The same enumeration (every file x every layout, ~10.7k cases quick, "
+          "~174k thorough) is rendered to bytes, decoded by the real provider (plugin constructor, mem fs, Run/Acquire/Release) and each request "
           "(method, RequestURI, Host, canonical headers, body bytes, tag) for two passes and one extra entry is compared by TLC; large random "
           "files (200 entries, 64 KiB binary bodies) go through the same trace spec. Right level: the property quantifies over file contents and "
           "layouts, which is a finite case function TLC can enumerate completely for small files; the unit tests have one fixture per decoder."),
@@ -51,13 +51,13 @@ def run(tier, v):
     sfx = "_big" if thorough else ""
     states, trans, detail = al.design_level(
         ["AmmoFormats_exh%s.cfg" % sfx, "AmmoFormats_layout%s.cfg" % sfx],
-        ["AmmoFormats_neg_noreset.cfg", "AmmoFormats_neg_firstwins.cfg", "AmmoFormats_neg_eofline.cfg"],
+        ["AmmoFormats_neg_noreset.cfg", "AmmoFormats_neg_eofline.cfg"] + (["AmmoFormats_neg_firstwins.cfg"] if thorough else []),
         workers=16 if thorough else 8, heap="12g" if thorough else "4g", coverage=thorough)
     d = vlib.scratch()
     files = al.export_cases("AmmoFormats_export_C07%s.cfg" % sfx, d, "c07")
     b = vlib.harness_build()
     rows_all, tstates, bad = [], 0, 0
-    nrand = 60 if thorough else 6
+    nrand = 60 if thorough else 10
     # quick: one trace; thorough: one trace per format (size)
     batches = [[f] for f in files] if thorough else [files]
     for i, batch in enumerate(batches):
@@ -86,13 +86,15 @@ def run(tier, v):
         "exhaustive": True,
         "evaluations": total,
         "distinct_nontrivial": from_tlc,
-        "rule": ("every abstract file of 1..%d items (>= 1 entry) over the per-format pools x every layout (crlf, ws, sep, final; json: 4 styles), "
-                 "exported by TLC (sets: all distinct); plus %d seeded random large files per format" % (4 if thorough else 3, nrand)),
+        "rule": ("every abstract file of 1..%d items (>= 1 entry) over the per-format pools x every layout (crlf, ws%s, sep, final; json: 4 styles), "
+                 "%sexported by TLC (sets: all distinct); plus %d seeded random large files per format" % (
+                     4 if thorough else 3, "" if thorough else " varying together",
+                     "plus every 2-item file with a different layout per item, " if thorough else "", nrand)),
         "deliveries_compared": sum(c["deliveries"] for c in detail["cases"]),
         "diverging_cases": bad,
         "trace_spec_states": tstates,
         "design": detail,
-        "negative_controls": ["noreset", "firstwins", "eofline"],
+        "negative_controls": ["noreset", "eofline"] + (["firstwins"] if thorough else []),
     }
     return "model_checking", cov, [
         "renderers (abstract file -> bytes) are faithful to docs/eng/providers.md and mirror RenderItem of AmmoFormats.tla (trusted base)",
